@@ -171,7 +171,7 @@ fn cust<const FAM: u8, const G10: i32>(x: f64) -> f64 {
     }
 }
 
-pub const CUSTOM_TABLE: [(u8, i32, f64); 20] = [
+pub const CUSTOM_TABLE: [(u8, i32, f64); 26] = [
     (0, 20, 2.0),
     (0, 40, 4.0),
     (0, 50, 5.0),
@@ -180,18 +180,24 @@ pub const CUSTOM_TABLE: [(u8, i32, f64); 20] = [
     (1, 5, 2.0),
     (1, 10, 2.0),
     (1, 30, 2.0),
+    (1, 50, 2.0),
+    (1, 55, 2.0),
     (1, 100, 2.0),
     (1, 300, 2.0),
     (2, 5, 2.0),
     (2, 10, 2.0),
     (2, 20, 2.0),
     (2, 40, 2.0),
+    (2, 60, 2.0),
     (2, 80, 2.0),
     (3, 1, 3.0),
     (3, 3, 3.0),
     (3, 5, 3.0),
     (3, 10, 3.0),
+    (3, 12, 3.0),
+    (3, 14, 3.0),
     (3, 30, 3.0),
+    (0, 30, 3.0),
 ];
 
 fn custom_fn(family: u8, g10: i32) -> fn(f64) -> f64 {
@@ -204,10 +210,10 @@ fn custom_fn(family: u8, g10: i32) -> fn(f64) -> f64 {
         };
     }
     t!(
-        (0, 20), (0, 40), (0, 50), (0, 80),
-        (1, 2), (1, 5), (1, 10), (1, 30), (1, 100), (1, 300),
-        (2, 5), (2, 10), (2, 20), (2, 40), (2, 80),
-        (3, 1), (3, 3), (3, 5), (3, 10), (3, 30)
+        (0, 20), (0, 30), (0, 40), (0, 50), (0, 80),
+        (1, 2), (1, 5), (1, 10), (1, 30), (1, 50), (1, 55), (1, 100), (1, 300),
+        (2, 5), (2, 10), (2, 20), (2, 40), (2, 60), (2, 80),
+        (3, 1), (3, 3), (3, 5), (3, 10), (3, 12), (3, 14), (3, 30)
     )
 }
 
